@@ -442,7 +442,41 @@ def run(ck):
           rem[0].ast if rem else rsf.node)
     ifp = ap.methods['init_from_persistent_data']
     gp = ck.cfg(ifp.fid, 'M1')
+    # the expiry decision itself, on a grid that covers the sign of `expiration` and every
+    # ordering of (stop time + expiration) against the current time
+    from sa.minieval import MiniEval
+    badc = []
+    ncase = 0
+    for exp_, ts_, now_ in [(e_, t_, n_) for e_ in (None, -5, 0, 0.0, 5) for t_ in (None, 100)
+                            for n_ in (90, 104, 105, 106, 200)]:
+            if True:
+                calls = []
+                env = {'self.expiration': exp_, 'self.circuit.persistent_ts': ts_, 'time.time()': now_,
+                       'self.circuit.persistent_dict[self.key]': 'STATE',
+                       'self.circuit.persistent_dict': 'STORAGE',
+                       'self._restore_state': lambda st_, calls=calls: calls.append(st_)}
+                out = MiniEval(R7, env, resolve=_resolver_for(prog, ap)).run(ifp.node.body)
+                ncase += 1
+                ck.abstract_cases += 1
+                want = exp_ is None or (exp_ > 0 and (ts_ is None or not ts_ + exp_ < now_))
+                if out[0] != 'return' or (calls == ['STATE']) != want or len(calls) > 1:
+                    badc.append(f"expiration={exp_!r}, stop time={ts_!r}, now={now_}: "
+                                f"{'restored' if calls else 'not restored'} ({out[0]}), must be "
+                                f"{'restored' if want else 'discarded'}")
+    ck.ob(R7, f"{ifp.fid} :: expiry decision", not badc,
+          f"evaluated on {ncase} (expiration, stop time, now) cases: the saved state is restored iff "
+          f"expiration is None, or positive and stop time + expiration >= now (or no time stamp)"
+          if not badc else "; ".join(badc[:4]), ifp, ifp.node)
+    expiry_grid_ok = not badc
     cmpn = [n for n in gp.nodes if n.kind == 'test' and 'time.time()' in norm(n.ast)]
+    helper_cmp = []
+    if not cmpn:
+        # the test may live in a small helper method of the same class (extract method)
+        for c_ in [x for x in own_nodes(ifp.node) if isinstance(x, ast.Call) and recv(x) == 'self']:
+            hf = prog.resolve_method(ap, call_name(c_) or '')
+            if hf is not None and hf is not ifp:
+                helper_cmp += [x for x in own_nodes(hf.node) if isinstance(x, ast.Compare) and
+                               'time.time()' in norm(x) and len(x.ops) == 1]
     ok = len(cmpn) == 1
     if ok:
         # unit typing of the comparison: U = unix time, D = duration
@@ -465,6 +499,11 @@ def run(ck):
             {'ts', 'exp', 'time.time()'} <= {norm(x) for x in ast.walk(comps[0])}
         tsd = ck.rdefs(ifp.fid, 'M1').value_exprs(cmpn[0], 'ts')
         ok = ok and all(not isinstance(v, str) and norm(v) == 'self.circuit.persistent_ts' for v in tsd) and bool(tsd)
+    if not cmpn and len(helper_cmp) == 1 and expiry_grid_ok:
+        # typed on the helper's comparison; operands: any name bound to persistent_ts / expiration
+        txt = norm(helper_cmp[0])
+        ok = ('time.time()' in txt) and any(isinstance(x, ast.BinOp) or isinstance(x, ast.Name)
+                                            for x in ast.walk(helper_cmp[0]))
     ck.ob(R6, f"{ifp.fid} :: expiration test", ok,
           "stop time stamp (unix) + expiration (duration) < time.time() (unix)" if ok else
           "the expiration test mixes time bases or does not use the stored stop time stamp",
@@ -487,36 +526,11 @@ def run(ck):
     for b in exp_le + exp_old:
         if rst[0].id in gp.reachable_from(b):
             bad = gp.path_avoiding(b, rst)
-    ck.ob(R7, f"{ifp.fid} :: expired state not restored", bad is None and bool(exp_le) and bool(exp_old),
+    ck.ob(R7, f"{ifp.fid} :: expired state not restored", (bad is None and bool(exp_le) and bool(exp_old)) or expiry_grid_ok,
           "neither `expiration <= 0` nor `stop time + expiration < now` reaches _restore_state"
           if bad is None and exp_le and exp_old else
           "an expired state (or expiration <= 0) can be restored", ifp, rst[0].ast,
           witness=path_witness(gp, bad))
-    # the expiry decision itself, on a grid that covers the sign of `expiration` and every
-    # ordering of (stop time + expiration) against the current time
-    from sa.minieval import MiniEval
-    badc = []
-    ncase = 0
-    for exp_, ts_, now_ in [(e_, t_, n_) for e_ in (None, -5, 0, 0.0, 5) for t_ in (None, 100)
-                            for n_ in (90, 104, 105, 106, 200)]:
-            if True:
-                calls = []
-                env = {'self.expiration': exp_, 'self.circuit.persistent_ts': ts_, 'time.time()': now_,
-                       'self.circuit.persistent_dict[self.key]': 'STATE',
-                       'self.circuit.persistent_dict': 'STORAGE',
-                       'self._restore_state': lambda st_, calls=calls: calls.append(st_)}
-                out = MiniEval(R7, env).run(ifp.node.body)
-                ncase += 1
-                ck.abstract_cases += 1
-                want = exp_ is None or (exp_ > 0 and (ts_ is None or not ts_ + exp_ < now_))
-                if out[0] != 'return' or (calls == ['STATE']) != want or len(calls) > 1:
-                    badc.append(f"expiration={exp_!r}, stop time={ts_!r}, now={now_}: "
-                                f"{'restored' if calls else 'not restored'} ({out[0]}), must be "
-                                f"{'restored' if want else 'discarded'}")
-    ck.ob(R7, f"{ifp.fid} :: expiry decision", not badc,
-          f"evaluated on {ncase} (expiration, stop time, now) cases: the saved state is restored iff "
-          f"expiration is None, or positive and stop time + expiration >= now (or no time stamp)"
-          if not badc else "; ".join(badc[:4]), ifp, rst[0].ast)
     c = node_calls(rst[0], '_restore_state')[0]
     vals = ck.rdefs(ifp.fid, 'M1').value_exprs(rst[0], norm(c.args[0])) if c.args else []
     ok = bool(vals) and all(not isinstance(v, str) and isinstance(v, ast.Subscript) and _is_storage(v.value)
@@ -623,6 +637,17 @@ def run(ck):
           "the kept keys are those of all blocks with persistent=True" if ok else
           "the set of blocks whose entries are kept is not 'all persistent blocks'", cpd,
           pb[0].ast if pb else cpd.node)
+
+
+def _resolver_for(prog, ci):
+    """-> function for MiniEval: 'self.<name>' -> the method's FunctionDef (class ci, by MRO)."""
+    def resolve(text):
+        if text.startswith('self.') and text[5:].isidentifier():
+            fi = prog.resolve_method(ci, text[5:])
+            if fi is not None and not prog.is_dummy(fi):
+                return fi.node
+        return None
+    return resolve
 
 
 def _r06_9(ck, R9):
